@@ -30,6 +30,7 @@ import lib
 import gen_asn1
 import c13c19_gen as G
 import c13c19_export as X
+import c13_seq
 
 import asn1tools
 from asn1tools.codecs import compiler as base_compiler
@@ -546,6 +547,8 @@ def replay(ctx):
     print('replaying', r.get('kind'))
     if r.get('kind') == 'witness':
         print('result:', run_witness(ctx, r))
+    elif r.get('kind') == 'seq-history':
+        c13_seq.replay(ctx, r)
     elif r.get('kind') == 'history':
         d = asn1tools.parse_string(r['spec'])
         pristine = copy.deepcopy(d)
@@ -606,5 +609,15 @@ def run(ctx):
         n = min(50, total - done)
         corr_and_pt(ctx, n, extra=done == 0, targeted=12 if done == 0 else 5)
         done += n
+    # (run last so that the random stream of the parts above is what it was before round 5)
+    # round 5: compile_dict calls that follow each other directly on one dictionary object (no reference
+    # compile in between), every codec object of the history probed afterwards, checkers included
+    seq_total = 24 if ctx.quick else 600
+    seq_done = 0
+    while seq_done < seq_total:
+        n = min(60, seq_total - seq_done)
+        enum_case = c13_seq.with_enum(lambda c: spec_case(c, c13_seq.enum_spec_opts()))
+        c13_seq.run_seq_cases(ctx, n, [enum_case, c13_seq.with_enum(ref_default_case), enum_case, spec_case], prepare)
+        seq_done += n
     if not ok:
         common.proof_broken(ctx)
